@@ -184,7 +184,7 @@ class Renderer:
                 return [f"{p}await {self.rx(c)}"]
             return [f"{p}await cohdl.expr({self.rx(c)})"]
         if k == "while":
-            out = [f"{p}while {'True' if s['c'] == 'true' else self.rx(s['c'])}:"]
+            out = [f"{p}while {'True' if s['c'] == 'true' else 'False' if s['c'] == 'false' else self.rx(s['c'])}:"]
             return out + self.block(s["body"], ind + 1)
         if k in ("break", "continue", "pass"):
             return [f"{p}{k}"]
@@ -609,6 +609,8 @@ def stmt(draw, env, depth, loop=False, in_sub=False):
     if k == "while":
         cenv = env.inputs_only() if draw(st.integers(0, 2)) else env
         c = draw(st.one_of(st.just("true"), cond_expr(cenv, 1), cond_expr(cenv, 1)))
+        if draw(st.integers(0, 11)) == 0:
+            c = "false"  # a loop whose condition is a compile-time False still costs the loop-entry clock
         body = draw(block(env, depth - 1, loop=True, in_sub=in_sub))
         return {"k": "while", "c": c, "body": body}
     if k == "awaitsub":
